@@ -216,6 +216,8 @@ class Exact:
 def period_verdicts(ex, s, e, h, scale):
     """the property for ONE period on the value `h` returned by the real code -> (list of (suffix, what, info), exact or None)"""
     covered, must, may, total = ex.period(s, e)
+    # "open": only a merely touching interval is invalid - the property leaves the period unconstrained (missing or average)
+    ex.last_open = bool(covered and may and not must)
     kind = "rain" if ex.rain else "trapz"
     out = []
     if not covered:
@@ -244,7 +246,7 @@ def period_verdicts(ex, s, e, h, scale):
     return out, want
 
 
-def check_periods(ctx, entry, case, ex, hstart, outs, tag, shrinker=None, final=None):
+def check_periods(ctx, entry, case, ex, hstart, outs, tag, shrinker=None, final=None, open_out=None):
     """the property, period by period, on values returned by the real code (`outs` = periods 0..len-1).
     `final` = index of the final period of the output: the property exempts it from "missing exactly when",
     so a missing value is always accepted there; a returned value is judged like any other."""
@@ -258,6 +260,8 @@ def check_periods(ctx, entry, case, ex, hstart, outs, tag, shrinker=None, final=
         s = hstart + i * P
         e = s + P
         verdicts, want = period_verdicts(ex, s, e, h, scale)
+        if open_out is not None and ex.last_open:
+            open_out.append(i)
         if i == final:
             verdicts = [v for v in verdicts if v[0] != "unexpected_missing"]
         for suffix, what, extra in verdicts:
@@ -341,12 +345,17 @@ def fmt_out(vals):
     return "ok [" + ",".join(C.f2h(v) for v in vals) + "]"
 
 
-def compare_lists(impl, model, scale):
-    """(agree, bit_equal)"""
+def compare_lists(impl, model, scale, skip=()):
+    """(agree, bit_equal). NaN is compared by isnan (never by sign bit / payload), numbers within 4 ulp or 1e-12 of
+    the data scale; indices in `skip` (periods the property leaves open: only a touching interval is invalid, where
+    "missing" and "the exact average" are both right and the oracle decides) are not compared."""
     if len(impl) != len(model):
         return False, False
     bit = True
-    for a, b in zip(impl, model):
+    skip = set(skip)
+    for i, (a, b) in enumerate(zip(impl, model)):
+        if i in skip:
+            continue
         if isnan(a) != isnan(b):
             return False, False
         if isnan(a):
@@ -468,8 +477,10 @@ def body(ctx):
                                     "end": s0 + P, "returned": None if isnan(h2) else h2, **extra,
                                     "shrunk_from": {"n": len(secs), "period": i, "gen": case.get("gen")}}
                     return None
+                open_idx = []
                 nontrivial = check_periods(ctx, "kernel", case, ex, hstart, outs + last, tag, shrinker,
-                                           final=(nvalh - 1 if last else None))
+                                           final=(nvalh - 1 if last else None), open_out=open_idx)
+                case = {**case, "_open": open_idx}
                 stats["periods_checked"] += len(outs) + len(last)
                 stats["periods_nonmissing"] += sum(1 for x in outs + last if not isnan(x))
                 stats["final_period_returned"] += sum(1 for x in last if not isnan(x))
@@ -575,6 +586,7 @@ def body(ctx):
                       and all(a <= b for a, b in zip(secs, secs[1:])))
         ref = None
         nontrivial = False
+        open_idx = []       # filled by the oracle on the first variant, shared by every request of this case
         for vi, (unit, tz) in enumerate(variants):
             res, rec = call_wrapper(secs, vals, P, rain, maxgap, unit, tz, se=(se if vi == 0 else None), style=style)
             stats["variants"] += 1
@@ -589,8 +601,9 @@ def body(ctx):
                     offs = utc_offsets(raw, sidx.unit, tz)
                     reqs.append(f"wrapperidx {P} {rain} {maxgap} {C.f2h(EPS)} {sidx.unit} {C.ilist(raw)} {C.ilist(offs)} "
                                 f"{C.flist(vals)}")
-                    impl_i = ("err " + res[1]) if res[0] == "err" else (rec["hstartsec"] if rec else None, res[1])
-                    pend.append(("wrapperidx", impl_i, {**vcase, "_wellformed": True,
+                    impl_i = ("err " + res[1]) if res[0] == "err" else (
+                        rec["hstartsec"] if rec else (res[2][0] if res[2] else None), res[1])
+                    pend.append(("wrapperidx", impl_i, {**vcase, "_wellformed": True, "_open": open_idx,
                                                         "_varsec": rec["varsec"] if rec else None}, scale))
                     stats["stored_index_cases"] += 1
                 except Exception as exc:       # an index pandas cannot describe this way: nothing to compare
@@ -629,12 +642,12 @@ def body(ctx):
                         ex = Exact(secs, vals, P, rain, maxgap)
                         outs = res[1]
                         nontrivial = check_periods(ctx, "var2h", vcase, ex, h0, outs, tag,
-                                                   final=len(outs) - 1)
+                                                   final=len(outs) - 1, open_out=open_idx)
                         stats["periods_checked"] += len(outs)
                         stats["periods_nonmissing"] += sum(1 for x in outs if not isnan(x))
                         stats["final_period_returned"] += sum(1 for x in outs[-1:] if not isnan(x))
                 reqs.append(f"wrapper {P} {rain} {maxgap} {C.f2h(EPS)} {C.ilist(secs)} {C.flist(vals)}")
-                pend.append(("wrapper", impl, {**vcase, "_wellformed": wellformed}, scale))
+                pend.append(("wrapper", impl, {**vcase, "_wellformed": wellformed, "_open": open_idx}, scale))
             else:
                 same = (res[0] == ref[0]) and (
                     res[1] == ref[1] if res[0] == "err" else
@@ -773,8 +786,13 @@ def body(ctx):
             for k in sorted(ks):
                 if 0 <= k and k + m <= nvalh - 1:
                     reqs.append(f"kernel {P} {rain} {maxgap} {C.f2h(EPS)} {hstart + k * P} {m + 1} {C.ilist(secs)} {C.flist(vals)}")
+                    opn = []
+                    for q in range(m - 1):
+                        cov, must, may, _ = ex.period(hstart + (k + 1 + q) * P, hstart + (k + 2 + q) * P)
+                        if cov and may and not must:
+                            opn.append(q)
                     pend.append(("kslice", [float(x) for x in arr[k + 1:k + m]],
-                                 {**case, "slice_from_period": k, "_wellformed": True}, scale))
+                                 {**case, "slice_from_period": k, "_wellformed": True, "_open": opn}, scale))
                     stats["long_model_slices"] += 1
         ctx.count(("long", P, rain, maxgap, hstart, nvalh, tuple(secs), tuple(case["vals"])), nontrivial,
                   f"long/{tag}/P={P}/rain={rain}" + ("/wrapper" if case.get("wrapper") else ""),
@@ -1136,19 +1154,20 @@ def body(ctx):
                 nlast = 1 if case["nvalh"] >= 1 else 0     # hvalues[nvalh-1]: never written by the model
                 if kind == "kernel":
                     mv = [C.h2f(t) for t in toks] + [float("nan")] * nlast
-                    ok, bit = compare_lists(impl, mv, scale)
+                    ok, bit = compare_lists(impl, mv, scale, case.get("_open", ()))
                     if ok:
                         stats["kernel_bit_equal" if bit else "kernel_within_tol"] += 1
                 else:
                     toks = toks + ["nan"] * nlast
+                    opn = set(case.get("_open", ()))
                     ok = len(toks) == len(impl) and all(
-                        (t == "nan") == isnan(a) and (t == "nan" or
-                                                      abs(Fraction(a) - Fraction(t)) <= 1e-12 * len(case["secs"]) * (scale + abs(a)))
-                        for t, a in zip(toks, impl))
+                        k in opn or ((t == "nan") == isnan(a) and (
+                            t == "nan" or abs(Fraction(a) - Fraction(t)) <= 1e-12 * len(case["secs"]) * (scale + abs(a))))
+                        for k, (t, a) in enumerate(zip(toks, impl)))
         elif kind == "kslice":
             if rep.startswith("ok "):
                 mv = [C.h2f(t) for t in C.parse_list(rep[3:])]
-                ok, bit = compare_lists(impl, mv[1:], scale)
+                ok, bit = compare_lists(impl, mv[1:], scale, case.get("_open", ()))
         elif kind == "wrapperidx":
             parts = rep.split(" ")
             msecs = [int(t) for t in C.parse_list(parts[-1])] if len(parts) >= 3 else None
@@ -1157,16 +1176,17 @@ def body(ctx):
                 ok = secs_ok and " ".join(parts[:2]) == impl
             elif parts[0] == "ok" and len(parts) == 4:
                 mv = [C.h2f(t) for t in C.parse_list(parts[2])]
-                ok, bit = compare_lists(impl[1], mv, scale)
-                ok = ok and secs_ok and impl[0] is not None and int(parts[1]) == impl[0]
+                ok, bit = compare_lists(impl[1], mv, scale, case.get("_open", ()))
+                # an empty result has no origin: origin compared only when there is at least one period
+                ok = ok and secs_ok and (not impl[1] or (impl[0] is not None and int(parts[1]) == impl[0]))
         else:
             if isinstance(impl, str):
                 ok = rep == impl
             elif rep.startswith("ok "):
                 _, hs, lst = rep.split(" ")
                 mv = [C.h2f(t) for t in C.parse_list(lst)]
-                ok, bit = compare_lists(impl[1], mv, scale)
-                ok = ok and impl[0] is not None and int(hs) == impl[0]
+                ok, bit = compare_lists(impl[1], mv, scale, case.get("_open", ()))
+                ok = ok and (not impl[1] or (impl[0] is not None and int(hs) == impl[0]))
                 if ok:
                     stats["wrapper_bit_equal" if bit else "wrapper_within_tol"] += 1
         if not ok and not case.get("_wellformed", True):
